@@ -28,6 +28,7 @@ def enumerated(check):
         "fan_in3": lambda rng: gen.shape_fan_in(rng, 3),
         "wait_for": gen.shape_wait_for,
         "deploy_expr": gen.shape_deploy_expr,
+        "multiref": gen.shape_multiref,
     }
     out = []
     for name, fn in sorted(shapes.items()):
